@@ -12,12 +12,12 @@ def run(tier):
     drv = vp.build("bulk_driver", ["bulk_driver.cpp"], ["-DVM_EXACT_SAME_SANDBOX"])
     tpath = os.path.join(wd, "bulk.ndjson")
     p = vp.run([drv, tpath, str(vp.seed()), "1" if thorough else "0"], timeout=1100)
-    vp.exit_ok(p, "bulk_driver")
+    vp.exit_ok(p, "bulk_driver", crash_codes=(11,))
     # the grant / deny operations again on a backend that offers that interface (and accepts in a second pass)
     gdrv = vp.build("bulk_driver_gd", ["bulk_driver.cpp"], ["-DVM_EXACT_SAME_SANDBOX", "-DVM_GRANT_DENY"])
     gpath = os.path.join(wd, "bulk_gd.ndjson")
     p = vp.run([gdrv, gpath, str(vp.seed()), "1" if thorough else "0"], timeout=1100)
-    vp.exit_ok(p, "bulk_driver_gd")
+    vp.exit_ok(p, "bulk_driver_gd", crash_codes=(11,))
     allev = vp.read_ndjson(tpath) + vp.read_ndjson(gpath)
     vp.write_ndjson(tpath, allev)
     events, bad = ac.validate(chk, tpath, "c10")
